@@ -28,7 +28,9 @@ ASSUMPTIONS = [
 ]
 NONTRIVIAL_FLOOR = {"histories": 0.2}
 
-KINDS = ["sort", "sort_reverse", "join", "complement", "distinct", "aggregate", "mergesort", "duplicates", "fromdicts", "fromdicts"]
+KINDS = ["sort", "sort_reverse", "join", "complement", "distinct", "aggregate", "mergesort", "duplicates", "fromdicts", "fromdicts",
+         "sort", "fromdicts", "unique", "conflicts", "intersection", "leftjoin", "lookupjoin", "antijoin", "rowreduce", "fold",
+         "groupselectlast", "groupselectmax", "mergeduplicates", "rowgroupmap", "pivot", "unjoin"]
 OTHER = [["k", "w"]] + [[i, i * 10] for i in range(5)]
 
 
@@ -109,6 +111,34 @@ def _build(kind, src, td, bs, cache):
         return etl.mergesort(src, [["k", "v"], [1, -1], [3, -2], [0, -3]], key="k", **kw)
     if kind == "duplicates":
         return etl.duplicates(src, "k", **kw)
+    if kind == "unique":
+        return etl.unique(src, "k", **kw)
+    if kind == "conflicts":
+        return etl.conflicts(src, "k", **kw)
+    if kind == "intersection":
+        return etl.intersection(src, [["k", "v"], [0, 0], [4, 2], [1, 3]], **kw)
+    if kind == "leftjoin":
+        return etl.leftjoin(src, OTHER, key="k", **kw)
+    if kind == "lookupjoin":
+        return etl.lookupjoin(src, OTHER, key="k", **kw)
+    if kind == "antijoin":
+        return etl.antijoin(src, [["k", "w"], [0, 0]], key="k", **kw)
+    if kind == "rowreduce":
+        return etl.rowreduce(src, "k", lambda k, rows: [k, len(list(rows))], header=["k", "n"], **kw)
+    if kind == "fold":
+        return etl.fold(src, "k", lambda a, b: a, "v", **kw)
+    if kind == "groupselectlast":
+        return etl.groupselectlast(src, "k", **kw)
+    if kind == "groupselectmax":
+        return etl.groupselectmax(src, "k", "v", **kw)
+    if kind == "mergeduplicates":
+        return etl.mergeduplicates(src, "k", **kw)
+    if kind == "rowgroupmap":
+        return etl.rowgroupmap(src, "k", lambda k, rows: [(k, r[1]) for r in rows], header=["k", "v"], **kw)
+    if kind == "pivot":
+        return etl.pivot(src, "v", "k", "v", len, **kw)
+    if kind == "unjoin":
+        return etl.unjoin(src, "v", key="k", **kw)[1]
     raise KeyError(kind)
 
 
@@ -145,10 +175,15 @@ def check(case, ctx):
     ctx.label("kind:" + kind, "cache" if cache else "nocache", "fail" if fail_at is not None else "nofail",
               "bs:" + ("lt" if bs < n else "eq" if bs == n else "gt"))
 
+    # the operators get tempdir=td; the process-wide default directory is a DIFFERENT private one: whatever a sort-backed
+    # operator creates must land in td (an ignored tempdir= argument would show in the default directory instead)
+    td_default = td + "-default"
+    os.makedirs(td_default, exist_ok=True)
+
     def listing():
-        return sorted(os.listdir(td))
+        return sorted(os.listdir(td)) + sorted("default/" + f for f in os.listdir(td_default))
     try:
-        tempfile.tempdir = td
+        tempfile.tempdir = td if kind == "fromdicts" else td_default
         try:
             if kind == "fromdicts":
                 st_["view"] = etl.fromdicts(_gen_dicts(rows, fail_at, case.get("fail_kind", "plain")), header=["k", "v"])
@@ -235,6 +270,9 @@ def check(case, ctx):
                 st_["view"] = None
             if listing():
                 seen_files = True
+            if kind != "fromdicts" and os.listdir(td_default):
+                return Fail("%s/tempdir-ignored" % kind, "a temporary file appeared in the default directory although tempdir= names another: %r"
+                            % (os.listdir(td_default),))
             if st_["view"] is None and not st_["its"]:
                 gc.collect()
                 left = listing()
@@ -251,6 +289,9 @@ def check(case, ctx):
         tempfile.tempdir = old_td
         st_["view"] = None
         st_["its"].clear()
+        gc.collect()
+        import shutil
+        shutil.rmtree(td_default, ignore_errors=True)
     ctx.nontrivial(seen_files and (abandoned or released_early or failed))
     ctx.label("files-seen" if seen_files else "no-files")
     return None
